@@ -526,11 +526,15 @@ def tag_case_lines(cases):
 def split_by_case(ops):
     """{k: [(op, outs)…]} keyed by the tag of the `case` marker echoed by harness / driver; blocks without a tag are
     returned under None (they belong to no script of the batch)"""
-    d, cur = {}, None
+    d, cur, last = {}, None, None
     for (op, outs) in ops:
         if op and op[0] == "case":
             m = re.match(r"@(\d+)@", op[1]) if len(op) > 1 else None
             key = int(m.group(1)) if m else None
+            if key is None:
+                d.setdefault("stray_after", last)     # an untagged marker: produced inside the script with tag `last`
+            else:
+                last = key
             cur = d.setdefault(key, [])
             if key is not None and cur:
                 cur = d[key] = []          # a repeated tag: keep the last block (cannot happen with tag_case_lines)
@@ -1165,11 +1169,9 @@ class Spec:
                    "hand-over / cleanup model: non-TLS daemon; TLS forwarding: the record layer (GnuTLS) and the socketpair are the environment of the "
                    "model (any result of each I/O call), the daemon lists around it (urh list, resume / cleanup of a TLS connection) are modelled "
                    "but tied only up to the finish test (the TLS release path is not run against the real daemon: no TLS handshake in the harness)",
-                   "the connection is not already in MUST_CLOSE when the upgrade response is queued: a request with BOTH Content-Length and chunked "
-                   "Transfer-Encoding (accepted at the default discipline level) forces MUST_CLOSE and the unrepaired keepalive_possible() then puts "
-                   "`close, ` in front of the 101's Connection value (finding, fix build/fixes/C20_upgrade_on_must_close.diff); the request "
-                   "variation `te-cl-early` that shows it is generated as soon as the source has the repaired order (probe_upgrade_before_must_close) "
-                   "or with C20_TE_CL=1",
+                   "a request with both Content-Length and chunked Transfer-Encoding forces MUST_CLOSE on the connection; since fix F37 "
+                   "(88c7ade) keepalive_possible() decides an upgrade response first: the request variation `te-cl-early` is always generated "
+                   "and judged by the exact-head oracle (a return of `Connection: close, Upgrade` is a violation)",
                    "not thread-per-connection in the model; internal-thread modes (select/poll/epoll with one thread, thread pools of 1-4, thread "
                    "per connection) x close inside the handler / later / never before stop are covered by the oracle and a relaxed comparison "
                    "(recv partition from the log, round markers and FIN/RST at close not compared)",
@@ -1202,7 +1204,8 @@ class Spec:
             have = have[:-1]
         elif len(have) != len(cases) or None in hby:
             miss = [k for k in range(len(cases)) if k not in hby]
-            bad = cases[miss[0]] if miss else cases[0]
+            sa = hby.get("stray_after")
+            bad = cases[miss[0]] if miss else cases[sa if isinstance(sa, int) and sa < len(cases) else 0]
             failures.append(vlib.Failure("diff", "upg: harness output without / outside a case marker",
                                          "scripts without output block: %s; output outside any script: %s"
                                          % ([cases[k].name for k in miss[:5]], None in hby), bad.lines, "upg"))
